@@ -647,7 +647,7 @@ var worldConformance = &world{
 var parseWorlds = []*world{worldIni, worldExpr, worldHeredoc, worldBasic, worldConformance}
 
 func worldByName(n string) *world {
-	for _, w := range parseWorlds {
+	for _, w := range robustWorlds {
 		if w.name == n {
 			return w
 		}
